@@ -49,4 +49,19 @@ def handlePipeline (j : Json) : Json :=
          ("by_merchant", .arr (s.byMerchant.map fun (k, c, v) => Json.arr #[.str k, .num c, floatToJson v]).toArray),
          ("by_month", .arr (s.byMonth.map fun (k, v) => Json.arr #[.str k, floatToJson v]).toArray)]
 
+/-- op `explain`: `tally explain "<description>" --amount a` on the model -/
+def handleExplain (j : Json) : Json :=
+  let o := oraclesOf (tableOfJson (jget j "oracle"))
+  let rbj := jget j "rulebook"
+  let rb : Rulebook :=
+    { mode := if jstr rbj "mode" == "most_specific" then Mode.mostSpecific else Mode.firstMatch
+      variables := namedExprs (jget rbj "variables"), transforms := namedExprs (jget rbj "transforms"),
+      rules := (jarr rbj "rules").map ruleXOfJson, hasEngine := jbool rbj "has_engine" }
+  let row : Row := { description := jstr j "description", amount := UInt64.ofNat ((jstr j "amount").toNat?.getD 0),
+                     date := none, source := "", location := none, field := none }
+  match classifyRow o (fnNames j) modelKey (pairsVal (jget j "supp")) rb row with
+  | .error e => errJson e
+  | .ok c => obj [("merchant", .str c.merchant), ("category", .str c.category), ("subcategory", .str c.subcategory),
+                  ("tags", .arr ((sortStrs c.tags).map Json.str).toArray)]
+
 end TallyVerif.Driver
